@@ -555,6 +555,8 @@ def entry_state(skel_state, params, float_cells):
             elif isinstance(val.inner, sk.Seq) and val.inner.n is not None:
                 state[cell] = ('some', [Form({'b:%s:%d' % (cell, j): 1.0}) for j in range(val.inner.n)])
                 atoms += ['b:%s:%d' % (cell, j) for j in range(val.inner.n)]
+            elif isinstance(val.inner, int) and not isinstance(val.inner, bool):
+                state[cell] = ('some', val.inner)       # an integer payload (a counter kept inside an Option)
             else:
                 state[cell] = ('some', Form({'c:%s' % cell: 1.0}))
                 atoms.append('c:%s' % cell)
@@ -588,6 +590,8 @@ def symbolic_step(F, v, m, skel_state, params, float_cells):
             elif isinstance(val.inner, sk.Seq) and val.inner.n is not None:
                 state[cell] = ('some', [Form({'b:%s:%d' % (cell, j): 1.0}) for j in range(val.inner.n)])
                 atoms += ['b:%s:%d' % (cell, j) for j in range(val.inner.n)]
+            elif isinstance(val.inner, int) and not isinstance(val.inner, bool):
+                state[cell] = ('some', val.inner)       # an integer payload (a counter kept inside an Option)
             else:
                 state[cell] = ('some', Form({'c:%s' % cell: 1.0}))
                 atoms.append('c:%s' % cell)
